@@ -31,6 +31,8 @@ pub enum Action {
 	Mine,
 	/// Mine k empty blocks and tell every node.
 	MineEmpty(u32),
+	/// Node sweeps its spendable outputs (settling phase).
+	Sweep(usize),
 	/// Deliver a corrupted copy of the revoke_and_ack at the head of link from→to
 	/// (variant 0: one bit of the secret flipped; 1: the previous secret replayed).
 	TamperRaa(usize, usize, u8),
@@ -57,6 +59,7 @@ pub fn encode_action(a: &Action) -> String {
 		Action::ReleaseLink(f, t) => format!("rellk:{}>{}", f, t),
 		Action::Mine => "mine".to_string(),
 		Action::MineEmpty(k) => format!("mineempty:{}", k),
+		Action::Sweep(n) => format!("sweep:{}", n),
 		Action::TamperRaa(f, t, v) => format!("tamper:{}:{}:{}", f, t, v),
 		Action::Finish => "fin".to_string(),
 	}
@@ -108,6 +111,7 @@ pub fn decode_action(s: &str) -> Option<Action> {
 		},
 		"mine" => Action::Mine,
 		"mineempty" => Action::MineEmpty(rest.parse().ok()?),
+		"sweep" => Action::Sweep(rest.parse().ok()?),
 		"tamper" => {
 			let v = nums(':');
 			Action::TamperRaa(*v.get(0)? as usize, *v.get(1)? as usize, *v.get(2)? as u8)
@@ -211,6 +215,9 @@ pub struct WorldSys {
 	pub jumped: bool,
 	pub needs_bury: bool,
 	pub jump_left: u32,
+	pub sweep_at_end: bool,
+	pub sweep_tries: u32,
+	pub sweep_failures: Vec<String>,
 	pub tampered: bool,
 	pub last_raa: std::collections::BTreeMap<(usize, usize), lightning::ln::msgs::RevokeAndACK>,
 	pub held_events: Vec<bool>,
@@ -248,6 +255,9 @@ impl WorldSys {
 			jumped: false,
 			needs_bury: false,
 			jump_left: u32::MAX,
+			sweep_at_end: false,
+			sweep_tries: 0,
+			sweep_failures: Vec::new(),
 			tampered: false,
 			last_raa: Default::default(),
 			settle_on_chain: false,
@@ -316,6 +326,9 @@ impl WorldSys {
 				v.push(Action::Mine);
 			} else if self.needs_bury {
 				v.push(Action::MineEmpty(7));
+			} else if self.sweep_at_end && self.sweep_tries < 40 && (0..n).any(|i| !self.w.unswept_descriptors(i).is_empty()) {
+				let i = (0..n).find(|i| !self.w.unswept_descriptors(*i).is_empty()).unwrap();
+				v.push(Action::Sweep(i));
 			} else if !self.jumped {
 				// past every HTLC expiry: 100 blocks of CLTV delta per hop in the harness routes
 				let hops = self.ops.iter().map(|o| if let Op::Send { hops, .. } = o { hops.len() } else { 1 }).max().unwrap_or(1) as u32;
@@ -525,8 +538,28 @@ impl WorldSys {
 						eprintln!("    mempool tx {} inputs {:?} outs {:?}", t.compute_txid(), t.input.iter().map(|i| format!("{}:{}", &i.previous_output.txid.to_string()[..8], i.previous_output.vout)).collect::<Vec<_>>(), t.output.iter().map(|o| o.value.to_sat()).collect::<Vec<_>>());
 					}
 				}
-				self.w.chain.mine_mempool();
+				self.w.mine_mempool_block();
 				self.w.sync_all();
+			},
+			Action::Sweep(n) => {
+				self.sweep_tries += 1;
+				match self.w.try_sweep(*n) {
+					Ok(Some(Err(crate::chain::Reject::NonFinal(_)))) => {
+						// a CSV-delayed output is not mature yet: let a few blocks pass and retry
+						self.w.mine_empty(12);
+						self.w.sync_all();
+					},
+					Ok(Some(Err(e))) => {
+						return Err(Failure::new(
+							"spendable-outputs-spendable",
+							format!("the spend of node {}'s SpendableOutputs built by its own keys is not valid: {:?}", n, e),
+						));
+					},
+					Ok(_) => {
+						crate::runner::witness("spendable-outputs-swept");
+					},
+					Err(e) => return Err(Failure::new("spendable-outputs-spendable", e)),
+				}
 			},
 			Action::MineEmpty(k) => {
 				// empty blocks one at a time; stop as soon as somebody has something to confirm so that
